@@ -252,3 +252,56 @@ Proof. exact neg_fast_path_keyless. Qed.
 Print Assumptions c07_negation_code_every_index. Print Assumptions c07_negation_code_spec.
 Print Assumptions c07_negation_is_none_hash_only. Print Assumptions c07_negation_is_none_refuted.
 Print Assumptions c07_negation_is_none_keyless.
+
+(* ================= the ORDER of the index columns that serve a variable repeated ACROSS two clauses =================
+   `r(x, y), s(y, x)`: the repeat is an equality test (c07_desugar_correct: the surface denotation); the generated code
+   implements it through an index of r on the shared columns.  Plan/PlanModel.v mirrors the two places of ascent_hir.rs
+   that pick the columns ([indices_given] = get_indices_given_grounded_variables, the first clause of a simple join;
+   [clause_indices] = the main loop, every other clause).  Syntax/JoinIndexOrder.v: both lists are strictly ascending, so
+   an index of full length IS the full index [0, .., n-1] — the invariant behind IrRelation::is_full_index (a length test)
+   and head_update_code (skips every index of full length; the full index is written separately): under it a derived row
+   reaches every index of its relation.  Laying the columns out in the order of the OTHER clause's variables (the same
+   set of columns) is refuted: `mutual(x, y) <-- link(x, y), link(y, x)` gets an index [1, 0] that no derived row
+   reaches.  The tie compares the column lists of the dumped plan with the model's as LISTS (gen/plan_model.py, run by
+   gen/props/c07.py on family permjoin) and the compiled programs with their hand expansion (no shared variable, no index). *)
+From AV Require Plan.PlanModel.
+From AV Require Syntax.JoinIndexOrder.
+Theorem c07_join_index_ascending : forall args vars pos,
+  Sorted.StronglySorted lt (PlanModel.indices_given args vars pos).
+Proof. exact JoinIndexOrder.indices_given_ascending. Qed.
+Theorem c07_simple_join_full_index_is_canonical : forall args vars,
+  JoinIndexOrder.is_full_index (List.length args) (PlanModel.indices_given args vars 0) = true ->
+  PlanModel.indices_given args vars 0 = List.seq 0 (List.length args).
+Proof. exact JoinIndexOrder.simple_join_full_index_canonical. Qed.
+Theorem c07_clause_full_index_is_canonical : forall G args,
+  JoinIndexOrder.is_full_index (List.length args) (fst (PlanModel.clause_indices G args 0)) = true ->
+  fst (PlanModel.clause_indices G args 0) = List.seq 0 (List.length args).
+Proof. exact JoinIndexOrder.clause_full_index_canonical. Qed.
+(* a derived row reaches EVERY index of its relation as long as full-length indices are canonical ... *)
+Theorem c07_head_update_complete : forall arity t ixs,
+  JoinIndexOrder.full_is_canonical arity ixs ->
+  forall ix, In ix (JoinIndexOrder.head_update arity t ixs) -> In t (snd ix).
+Proof. exact JoinIndexOrder.head_update_complete. Qed.
+(* ... which the planner's indices are ... *)
+Theorem c07_planner_indices_canonical : forall G args vars rows1 rows2,
+  JoinIndexOrder.full_is_canonical (List.length args)
+    [(PlanModel.indices_given args vars 0, rows1); (fst (PlanModel.clause_indices G args 0), rows2)].
+Proof. exact JoinIndexOrder.planner_indices_canonical. Qed.
+(* ... and the columns in the order of the other clause's variables are NOT (same set, full length, never written) *)
+Theorem c07_join_index_in_other_clause_order_refuted :
+  exists args vars t rows,
+    Permutation.Permutation (JoinIndexOrder.indices_by_vars args vars) (PlanModel.indices_given args vars 0)
+    /\ JoinIndexOrder.is_full_index (List.length args) (JoinIndexOrder.indices_by_vars args vars) = true
+    /\ JoinIndexOrder.indices_by_vars args vars <> List.seq 0 (List.length args)
+    /\ ~ JoinIndexOrder.full_is_canonical (List.length args) [(JoinIndexOrder.indices_by_vars args vars, rows)]
+    /\ ~ In t (snd (hd ([], []) (JoinIndexOrder.head_update (List.length args) t [(JoinIndexOrder.indices_by_vars args vars, rows)]))).
+Proof. exact JoinIndexOrder.indices_by_vars_refuted. Qed.
+Example c07_mutual_ascending :
+  PlanModel.indices_given [TVar 0%nat; TVar 1%nat] [1%nat; 0%nat] 0 = [0%nat; 1%nat]
+  /\ JoinIndexOrder.head_update 2 [7%Z; 8%Z] [(PlanModel.indices_given [TVar 0%nat; TVar 1%nat] [1%nat; 0%nat] 0, [])] = [([0%nat; 1%nat], [[7%Z; 8%Z]])].
+Proof. exact JoinIndexOrder.mutual_ascending. Qed.
+
+Print Assumptions c07_join_index_ascending. Print Assumptions c07_simple_join_full_index_is_canonical.
+Print Assumptions c07_clause_full_index_is_canonical. Print Assumptions c07_head_update_complete.
+Print Assumptions c07_planner_indices_canonical. Print Assumptions c07_join_index_in_other_clause_order_refuted.
+Print Assumptions c07_mutual_ascending.
